@@ -9,9 +9,12 @@ the statement).  One declarative script is compiled into a falcon.App and a
 falcon.asgi.App; fault placements are switched per request without rebuilding the app.
 """
 
+import functools
+import inspect
 import itertools
 import os
 import sys
+import types
 
 # docs/api/routing.rst: custom HTTP methods are enabled with this variable (read when falcon is imported);
 # check.py's parent imports this module first, so the shard children inherit it.
@@ -145,6 +148,51 @@ def _mw_method(ctx, i, m, tag, is_async):
     return fn
 
 
+class _AsyncCallable:
+    def __init__(self, impl):
+        self._impl = impl
+
+    async def __call__(self, scope, event):
+        await self._impl(scope, event)
+
+
+LFORMS = ('method', 'static', 'classmethod', 'instance', 'object')
+
+
+class ObjectDecorator:
+    """A decorator implemented as a callable descriptor object (the way wrapt-style tracing/metrics
+    decorators are written): transparent, forwards to the wrapped responder."""
+
+    def __init__(self, fn):
+        self._fn = fn
+        functools.update_wrapper(self, fn)
+        if inspect.iscoroutinefunction(fn):
+            inspect.markcoroutinefunction(self)
+
+    def __call__(self, *args, **kwargs):
+        return self._fn(*args, **kwargs)
+
+    def __get__(self, instance, owner=None):
+        if instance is None:
+            return self
+        return types.MethodType(self, instance)
+
+
+def function_decorator(fn):
+    if inspect.iscoroutinefunction(fn):
+        @functools.wraps(fn)
+        async def wrapper(*args, **kwargs):
+            return await fn(*args, **kwargs)
+    else:
+        @functools.wraps(fn)
+        def wrapper(*args, **kwargs):
+            return fn(*args, **kwargs)
+    return wrapper
+
+
+RFORMS = {'object': ObjectDecorator, 'wrapped': function_decorator}
+
+
 def build_component(ctx, i, comp, stack, lctx=None):
     """Class for component i on the given stack, or None when it would expose nothing there."""
     ns = {}
@@ -161,8 +209,31 @@ def build_component(ctx, i, comp, stack, lctx=None):
         elif style == 'async_only':
             ns[name + '_async'] = _mw_method(ctx, i, m, 'async_suffix', True)
     if stack == 'asgi' and lctx is not None:
+        lform = comp.get('lform') or 'method'
+        inst_attrs = {}
+
+        def provide(name, impl):
+            """The same handler, provided the way comp['lform'] says (all of them are 'the component has a
+            callable attribute of that name')."""
+            if lform == 'method':
+                async def meth(self, scope, event):
+                    await impl(scope, event)
+                ns[name] = meth
+            elif lform == 'static':
+                ns[name] = staticmethod(impl)
+            elif lform == 'classmethod':
+                async def cmeth(cls, scope, event):
+                    await impl(scope, event)
+                ns[name] = classmethod(cmeth)
+            elif lform == 'instance':
+                inst_attrs[name] = impl                       # plain coroutine function stored on the instance
+            elif lform == 'object':
+                inst_attrs[name] = _AsyncCallable(impl)       # callable object
+            else:
+                raise AssertionError(lform)
+
         if comp.get('startup'):
-            async def process_startup(self, scope, event, _i=i):
+            async def startup(scope, event, _i=i):
                 lctx['trace'].append(('startup', _i))
                 lctx['log'].append(('call', 'startup', _i, event.get('type'), scope.get('type')))
                 cb = lctx.get('in_startup', {}).get(_i)
@@ -170,14 +241,19 @@ def build_component(ctx, i, comp, stack, lctx=None):
                     cb()
                 if lctx['actions'].get('M%d.startup' % _i) == 'raise':
                     raise RuntimeError('startup %d' % _i)
-            ns['process_startup'] = process_startup
+            provide('process_startup', startup)
         if comp.get('shutdown'):
-            async def process_shutdown(self, scope, event, _i=i):
+            async def shutdown(scope, event, _i=i):
                 lctx['trace'].append(('shutdown', _i))
                 lctx['log'].append(('call', 'shutdown', _i, event.get('type'), scope.get('type')))
                 if lctx['actions'].get('M%d.shutdown' % _i) == 'raise':
                     raise RuntimeError('shutdown %d' % _i)
-            ns['process_shutdown'] = process_shutdown
+            provide('process_shutdown', shutdown)
+        if ns or inst_attrs:
+            obj = type('MW%d' % i, (), ns)()
+            for k, v in inst_attrs.items():
+                setattr(obj, k, v)
+            return obj
     if not ns:
         return None
     return type('MW%d' % i, (), ns)()
@@ -233,6 +309,8 @@ def build_resource(ctx, script, stack):
     fns = {name: responder(name) for name in M.all_responders()}
     for kind, hid in reversed(list(script.get('hooks_method', ()))):      # innermost applied first
         fns['on_get'] = deco(kind, hid)(fns['on_get'])
+    for name, form in (script.get('forms') or {}).items():
+        fns[name] = RFORMS[form](fns[name])          # outermost decorator of that responder
     inherit = set(script.get('inherit', ()))
     # responders named in 'inherit' live on a base class (optionally with class-level hooks of its own);
     # the routed class defines the others itself and carries the class-level hooks
@@ -277,8 +355,17 @@ def build_app(script, stack, lctx=None, defer_from=None):
         first, later = now, []
     else:
         first, later = [mw for i, mw in mws if i < n_ctor and mw in now], [mw for i, mw in mws if i >= n_ctor and mw in now]
-    app = cls(middleware=(first[0] if len(first) == 1 and single else first or None),
-              independent_middleware=script['independent'])
+    spell = script.get('mw_arg') or 'list'
+    if spell == 'bare' and len(first) == 1 or (len(first) == 1 and single and spell == 'list'):
+        arg = first[0]                      # a single bare component instead of an iterable
+    elif spell == 'tuple':
+        arg = tuple(first)
+    elif spell == 'iter':
+        arg = iter(first)
+    else:
+        arg = first or None
+    kwargs = {'cors_enable': True} if script.get('cors') else {}
+    app = cls(middleware=arg, independent_middleware=script['independent'], **kwargs)
     add(later)
 
     def add_pending():
@@ -419,7 +506,8 @@ def script_key(script):
     return (script['independent'], tuple(tuple(sorted(c.items(), key=str)) for c in script['comps']),
             tuple(map(tuple, script.get('hooks_class', ()))), tuple(map(tuple, script.get('hooks_method', ()))),
             tuple(sorted(script.get('inherit', ()))), tuple(map(tuple, script.get('hooks_base', ()))),
-            script.get('ctor'), script.get('add_single'), script.get('add_after_requests'))
+            script.get('ctor'), script.get('add_single'), script.get('add_after_requests'),
+            tuple(sorted((script.get('forms') or {}).items())), script.get('mw_arg'), script.get('cors'))
 
 
 def case_key(skey, case):
@@ -472,12 +560,17 @@ def site_actions(site, reduced):
 H_PAIRS = (('http_error', 'ret'), ('ret', 'http_status'), ('ret', 'ret'), ('http_status', 'http_error'))
 
 
-def placements(sites, max_faults, reduced_from=2, n_hpairs=4):
-    """All assignments of a non-'ret' action to up to max_faults sites (+ handler action when relevant)."""
+def placements(sites, max_faults, reduced_from=2, n_hpairs=4, need_mw=False):
+    """All assignments of a non-'ret' action to up to max_faults sites (+ handler action when relevant).
+    need_mw: multi-fault placements must involve at least one middleware method (placements confined to the
+    hooks/responder do not depend on the middleware stack; the caller enumerates them with the small stacks)."""
     yield {}, ['ret']
+    rot = 0
     for nf in range(1, max_faults + 1):
         reduced = nf >= reduced_from
         for combo in itertools.combinations(sites, nf):
+            if need_mw and nf > 1 and not any(x.startswith('M') for x in combo):
+                continue
             for acts in itertools.product(*[site_actions(s, reduced) for s in combo]):
                 actions = dict(zip(combo, acts))
                 nh = sum(1 for a in acts if a == 'app_handled')
@@ -488,13 +581,20 @@ def placements(sites, max_faults, reduced_from=2, n_hpairs=4):
                         yield actions, [ha]
                 else:
                     # the handler can run several times: vary its behaviour per invocation
+                    if n_hpairs == 0:       # rotate: one handler pattern per placement, all patterns in turn
+                        rot += 1
+                        yield actions, list(H_PAIRS[rot % len(H_PAIRS)])
+                        continue
                     for has in H_PAIRS[:n_hpairs]:
                         yield actions, list(has)
 
 
 # class-level after innermost on a class that inherits on_get / on_get_items and defines on_get_f itself
 EXH_HOOKS = {'hooks_class': [['before', 0], ['after', 3]], 'hooks_method': [['after', 1], ['before', 2]],
-             'inherit': ['on_get', 'on_get_items'] + M.all_responders()[3::2], 'hooks_base': []}
+             'inherit': ['on_get', 'on_get_items'] + M.all_responders()[3::2], 'hooks_base': [],
+             # every third responder (own and inherited ones) carries a third-party style decorator
+             'forms': dict([(nm, 'object') for nm in M.all_responders()[1::3]] +
+                           [(nm, 'wrapped') for nm in M.all_responders()[5::6]])}
 def method_kinds():
     ms = M.HTTP_EXTRA + M.WEBDAV + (M.CUSTOM if CUSTOM_OK else ())
     return ['m:' + m for m in ms] + ['ms:' + m for m in M.SUFFIXED_EXTRA if m in ms]
@@ -534,11 +634,26 @@ def exhaustive(rec):
                     app, ctx = build_app(script, stack)
                     for kind, (mf, reduced_from) in plan.items():
                         sites = reachable_sites(script, kind)
-                        for actions, hactions in placements(sites, mf, reduced_from, 2 if rec.tier == 'quick' else 4):
+                        for actions, hactions in placements(sites, mf, reduced_from, 0 if rec.tier == 'quick' else 4,
+                                                            need_mw=rec.tier == 'quick' and len(comps) == 2):
                             case = {'stack': stack, 'kind': kind, 'actions': actions, 'hactions': hactions}
                             check_case(rec, script, case, app, ctx)
                             rec.case(case_key(skey, case) if actions else None)
                             rec.count('exh.faults.%d' % len(actions))
+                    if maxcomp == 2 and len(comps) == 1:
+                        # the same one-component stack spelled differently, with and without the implicit
+                        # CORS component: nothing changes for the user's component
+                        sites = reachable_sites(script, 'route')
+                        for spell, cors in (('bare', False), ('bare', True), ('tuple', True), ('iter', False),
+                                            ('list', True)):
+                            sc = dict(script, mw_arg=spell, cors=cors)
+                            app2, ctx2 = build_app(sc, stack)
+                            for kind in ('route', 'unrouted'):
+                                for actions, hactions in placements(reachable_sites(sc, kind), 1, 2):
+                                    case = {'stack': stack, 'kind': kind, 'actions': actions, 'hactions': hactions}
+                                    check_case(rec, sc, case, app2, ctx2)
+                                    rec.case(case_key(script_key(sc), case) if actions else None)
+                                    rec.count('exh.spelling.%s%s' % (spell, '.cors' if cors else ''))
                     if maxcomp == 2 and len(comps) == 2:
                         # the app is reconfigured between requests: the 2nd component is registered with
                         # add_middleware() only after the app has served requests
@@ -579,6 +694,7 @@ def random_script(rng):
                 c[m] = None if r < 0.35 else rng.choice(['plain', 'plain', 'both', 'async_only'])
             c['startup'] = rng.random() < 0.3
             c['shutdown'] = rng.random() < 0.3
+            c['lform'] = rng.choice(LFORMS)
             if any(c[m] for m in METHODS) or c['startup'] or c['shutdown']:
                 break
         comps.append(c)
@@ -587,8 +703,14 @@ def random_script(rng):
     hooks_method = [[rng.choice(['before', 'after']), next(hid)] for _ in range(rng.choice([0, 1, 2, 3, 4]))]
     inherit = [nm for nm in M.all_responders() if rng.random() < 0.5]
     hooks_base = [[rng.choice(['before', 'after']), next(hid)] for _ in range(rng.choice([0, 0, 1, 2]))] if inherit else []
+    forms = {}
+    for nm in M.all_responders():
+        r = rng.random()
+        if r < 0.3:
+            forms[nm] = 'object' if r < 0.2 else 'wrapped'
     script = {'independent': rng.random() < 0.5, 'comps': comps, 'hooks_class': hooks_class,
-              'hooks_method': hooks_method, 'inherit': inherit, 'hooks_base': hooks_base}
+              'hooks_method': hooks_method, 'inherit': inherit, 'hooks_base': hooks_base, 'forms': forms,
+              'mw_arg': rng.choice(['list', 'list', 'tuple', 'iter', 'bare']), 'cors': rng.random() < 0.25}
     if n and rng.random() < 0.3:
         script['ctor'] = rng.randrange(0, n)
         script['add_single'] = rng.random() < 0.5
@@ -689,6 +811,9 @@ def run_lifespan_case(rec, script, lactions, count=True, built=None, late=None):
         rec.count('lifespan.' + want_sent[-1])
         if len(want_trace) >= 3:
             rec.count('lifespan.ge3_handlers')
+    if count:
+        for t in want_trace:
+            rec.count('lifespan.lform.%s.%s' % (script['comps'][t[1]].get('lform') or 'method', t[0]))
     if count and late:
         rec.count('lifespan.late.' + late['when'])
         if any(t[0] == 'shutdown' and t[1] >= len(script['comps']) - late['n'] for t in want_trace):
@@ -755,7 +880,8 @@ def lifespan_exhaustive(rec):
                     if not (su or sd or has_req):
                         has_req = True
                     comps.append({'req': 'plain' if has_req else None, 'rsrc': None,
-                                  'resp': 'async_only' if has_req and k % 2 else None, 'startup': su, 'shutdown': sd})
+                                  'resp': 'async_only' if has_req and k % 2 else None, 'startup': su, 'shutdown': sd,
+                                  'lform': LFORMS[(idx + 2 * k) % len(LFORMS)]})
                 script = {'independent': True, 'comps': comps, 'hooks_class': [], 'hooks_method': []}
                 hs = ['M%d.startup' % i for i, c in enumerate(comps) if c['startup']] + \
                      ['M%d.shutdown' % i for i, c in enumerate(comps) if c['shutdown']]
@@ -775,7 +901,8 @@ def lifespan_late_exhaustive(rec):
     opts = [(False, False), (True, False), (False, True), (True, True)]
     for n in range(1, 4):
         for combo in itertools.product(opts, repeat=n):
-            comps = [{'req': 'plain', 'rsrc': None, 'resp': 'plain' if k % 2 else None, 'startup': su, 'shutdown': sd}
+            comps = [{'req': 'plain', 'rsrc': None, 'resp': 'plain' if k % 2 else None, 'startup': su, 'shutdown': sd,
+                      'lform': LFORMS[(n + sum(map(sum, combo)) + 2 * k) % len(LFORMS)]}
                      for k, (su, sd) in enumerate(combo)]
             script = {'independent': True, 'comps': comps, 'hooks_class': [], 'hooks_method': []}
             hs = ['M%d.startup' % i for i, c in enumerate(comps) if c['startup']] + \
@@ -833,7 +960,8 @@ def set_floors(rec):
                   'second_resp_fault', 'responder.on_get', 'responder.on_get_f', 'responder.on_get_items',
                   'responder.sink', 'responder.404', 'responder.405', 'responder.auto_options',
                   'inherit.class_before', 'inherit.class_after', 'inherit.class_after_innermost',
-                  'inherit.base_hook', 'own.class_hook'):
+                  'inherit.base_hook', 'own.class_hook', 'form.object', 'form.wrapped', 'form.object.classhook',
+                  'form.wrapped.classhook', 'form.object.classhook.inherited'):
             rec.floor('cls.%s.%s' % (stack, c), 20)
         for k in ('route', 'field', 'suffix', 'options', 'nomethod', 'falsy', 'sink', 'unrouted'):
             rec.floor('kind.%s.%s' % (stack, k), 50)
@@ -848,6 +976,11 @@ def set_floors(rec):
     for ev in ('lifespan.startup.failed', 'lifespan.shutdown.failed', 'lifespan.shutdown.complete'):
         rec.floor('lifespan.' + ev, 10)
     rec.floor('lifespan.ge3_handlers', 5)
+    for lf in LFORMS:
+        for ph in ('startup', 'shutdown'):
+            rec.floor('lifespan.lform.%s.%s' % (lf, ph), 20)
+    for sp in ('bare', 'bare.cors', 'tuple.cors', 'iter', 'list.cors'):
+        rec.floor('exh.spelling.' + sp, 20)
     for c in ('between', 'startup', 'shutdown_of_late_component', 'startup_of_late_component', 'http_after'):
         rec.floor('lifespan.late.' + c, 20)
     rec.floor('random.faults.3', 20)
@@ -868,7 +1001,9 @@ def run(rec):
     rec.assumptions = ['reference interpreter vlib/models/c03_stack.py reads docs/api/middleware.rst correctly',
                        'error handlers raise only HTTPError/HTTPStatus (what the documentation allows)',
                        'resp.complete set inside a before hook is not exercised (undocumented)',
-                       'ASGI hooks and handlers are coroutine functions']
+                       'ASGI hooks and handlers are coroutine functions',
+                       'the position of the implicit CORSMiddleware (cors_enable) relative to user components is '
+                       'undocumented and not judged; only the user components\' own call sequence is']
     set_floors(rec)
     lifespan_exhaustive(rec)
     lifespan_late_exhaustive(rec)
